@@ -119,6 +119,21 @@ func verifC29Current(ctx context.Context, st gatebe.State, pw string) (string, *
 	return repo.KeyID().String(), repo, nil
 }
 
+// verifC29CurrentOrder is verifC29Current for a backend that lists in the given order (which of several keys
+// with the same password is selected depends on the listing order).
+func verifC29CurrentOrder(ctx context.Context, st gatebe.State, pw string, reverse bool) (string, error) {
+	oracle.LowKDF()
+	be := &gatebe.Backend{S: gatebe.NewStoreFrom(st, nil), Proc: "probe", Conns: 2, AtomicReplace: true, ListReverse: reverse}
+	repo, err := repository.New(be, repository.Options{})
+	if err != nil {
+		return "", err
+	}
+	if err := repo.SearchKey(ctx, pw, 20, ""); err != nil {
+		return "", err
+	}
+	return repo.KeyID().String(), nil
+}
+
 // verifC29Attribute adds key files that appeared to the model with the given label.
 func verifC29Attribute(m *verifC29Model, st gatebe.State, label string) {
 	for _, n := range verifC29KeyNames(st) {
@@ -212,6 +227,18 @@ func TestVerif_C29(t *testing.T) {
 			continue // nothing to remove: not a distinct history
 		}
 		baseState, baseModel := st, m.clone()
+		// "the key in use cannot be removed": the repository-level guard, probed on every distinct state
+		if pk := "probe|" + strings.Join(verifC29KeyNames(baseState), ","); !seen[pk] {
+			seen[pk] = true
+			if _, rp, err := verifC29Current(ctx, baseState, verifC29PW[baseModel.curPW]); err == nil {
+				before := len(verifC29KeyNames(baseState))
+				rerr := repository.RemoveKey(ctx, rp, rp.KeyID())
+				r.Eval(1)
+				if rerr == nil {
+					r.Violationf("hist|"+name, "C29|key-in-use-removable|RemoveKey", name, "repository.RemoveKey removed the key the repository was opened with (%d key files before); the key in use must not be removable", before)
+				}
+			}
+		}
 		// opensWith computes, for a state, which labels open it and checks the master keys agree
 		stateOracle := func(ctx context.Context, c crashx.Crash) []string {
 			var probs []string
@@ -246,59 +273,73 @@ func TestVerif_C29(t *testing.T) {
 			}
 			return probs
 		}
-		sc := crashx.Scenario{
-			Property: "C29", Name: name, Base: baseState, Sem: nil,
-			Backend: func(be *gatebe.Backend) { be.Ungated = map[backend.FileType]bool{backend.LockFile: true} },
-			Prepare: func(ctx context.Context, run *crashx.Run, be *gatebe.Backend) (any, error) {
-				run.Data = be
-				return nil, nil
-			},
-			Op: func(ctx context.Context, run *crashx.Run, _ any) error {
-				return verifC29Run(t, ctx, r.Scratch, run.Data.(*gatebe.Backend), baseModel, last, curKey)
-			},
-			StateOracle: stateOracle,
-			EndOracle: func(ctx context.Context, run *crashx.Run) []string {
-				if !run.Done || run.Faulted {
-					return nil
-				}
-				end := run.Store.Snapshot()
-				before, after := verifC29KeyNames(baseState), verifC29KeyNames(end)
-				var probs []string
-				switch last.kind {
-				case "add":
-					if run.Err != nil {
-						probs = append(probs, fmt.Sprintf("key: add failed without a fault: %v", run.Err))
-					} else if len(after) != len(before)+1 {
-						probs = append(probs, fmt.Sprintf("key: add succeeded but key count went %d -> %d", len(before), len(after)))
+		for _, listOrder := range []string{"asc", "desc"} {
+			listOrder := listOrder
+			curKey, err := verifC29CurrentOrder(ctx, baseState, verifC29PW[baseModel.curPW], listOrder == "desc")
+			if err != nil {
+				continue
+			}
+			if last.kind == "remove" && verifC29Target(baseModel, last, curKey) == "" {
+				continue
+			}
+			sc := crashx.Scenario{
+				Property: "C29", Name: name + "/list-" + listOrder, Base: baseState, Sem: nil,
+				Backend: func(be *gatebe.Backend) {
+					// backends list in no particular order; which key file is tried first matters to the key search
+					be.ListReverse = listOrder == "desc"
+					be.Ungated = map[backend.FileType]bool{backend.LockFile: true}
+				},
+				Prepare: func(ctx context.Context, run *crashx.Run, be *gatebe.Backend) (any, error) {
+					run.Data = be
+					return nil, nil
+				},
+				Op: func(ctx context.Context, run *crashx.Run, _ any) error {
+					return verifC29Run(t, ctx, r.Scratch, run.Data.(*gatebe.Backend), baseModel, last, curKey)
+				},
+				StateOracle: stateOracle,
+				EndOracle: func(ctx context.Context, run *crashx.Run) []string {
+					if !run.Done || run.Faulted {
+						return nil
 					}
-				case "passwd":
-					if run.Err != nil {
-						probs = append(probs, fmt.Sprintf("key: passwd failed without a fault: %v", run.Err))
-					} else {
-						if len(after) != len(before) {
-							probs = append(probs, fmt.Sprintf("key: passwd succeeded but key count went %d -> %d", len(before), len(after)))
+					end := run.Store.Snapshot()
+					before, after := verifC29KeyNames(baseState), verifC29KeyNames(end)
+					var probs []string
+					switch last.kind {
+					case "add":
+						if run.Err != nil {
+							probs = append(probs, fmt.Sprintf("key: add failed without a fault: %v", run.Err))
+						} else if len(after) != len(before)+1 {
+							probs = append(probs, fmt.Sprintf("key: add succeeded but key count went %d -> %d", len(before), len(after)))
 						}
-						if _, still := end[gatebe.FileKey{Type: backend.KeyFile, Name: curKey}]; still {
-							probs = append(probs, "key: passwd succeeded but the old key file is still present (old password still opens)")
+					case "passwd":
+						if run.Err != nil {
+							probs = append(probs, fmt.Sprintf("key: passwd failed without a fault: %v", run.Err))
+						} else {
+							if len(after) != len(before) {
+								probs = append(probs, fmt.Sprintf("key: passwd succeeded but key count went %d -> %d", len(before), len(after)))
+							}
+							if _, still := end[gatebe.FileKey{Type: backend.KeyFile, Name: curKey}]; still {
+								probs = append(probs, "key: passwd succeeded but the old key file is still present (old password still opens)")
+							}
+						}
+					case "remove":
+						target := verifC29Target(baseModel, last, curKey)
+						_, still := end[gatebe.FileKey{Type: backend.KeyFile, Name: target}]
+						if last.arg == "current" {
+							if run.Err == nil || !still || len(after) != len(before) {
+								probs = append(probs, fmt.Sprintf("key: removing the key in use must be refused and change nothing (err=%v, still present=%v)", run.Err, still))
+							}
+						} else if run.Err != nil {
+							probs = append(probs, fmt.Sprintf("key: remove failed without a fault: %v", run.Err))
+						} else if still || len(after) != len(before)-1 {
+							probs = append(probs, "key: remove succeeded but the key file set is wrong")
 						}
 					}
-				case "remove":
-					target := verifC29Target(baseModel, last, curKey)
-					_, still := end[gatebe.FileKey{Type: backend.KeyFile, Name: target}]
-					if last.arg == "current" {
-						if run.Err == nil || !still || len(after) != len(before) {
-							probs = append(probs, fmt.Sprintf("key: removing the key in use must be refused and change nothing (err=%v, still present=%v)", run.Err, still))
-						}
-					} else if run.Err != nil {
-						probs = append(probs, fmt.Sprintf("key: remove failed without a fault: %v", run.Err))
-					} else if still || len(after) != len(before)-1 {
-						probs = append(probs, "key: remove succeeded but the key file set is wrong")
-					}
-				}
-				return probs
-			},
+					return probs
+				},
+			}
+			crashx.Explore(r, t, sc, bound, seen)
 		}
-		crashx.Explore(r, t, sc, bound, seen)
 	}
 	r.Extra("history_length_bound", maxLen)
 	r.Extra("deviation_bound", bound)
